@@ -123,7 +123,47 @@ private theorem escapeControl_clean (s : List Nat) : Clean (escapeControl true s
     have := escaped_has_no_Cc_except_tab_lf_cr s c hc ((isCc_iff_mem_ccList c).1 hcc)
     rcases this with rfl | rfl | rfl <;> decide
 
+/-- **Exact behaviour for every input, astral code points and surrogates included** (strings are lists of arbitrary
+    naturals): a code point is replaced by "." exactly when it is a Cc control character that is not kept (TAB/LF/CR
+    with keep_spacing), and is left unchanged otherwise.  In particular the function does NOT touch Cf format characters
+    (soft hyphen, bidi overrides, BOM, tags): see `escape_leaves_Cf_unchanged`. -/
+theorem escape_spec (k : Bool) (cp : Nat) :
+    escCp k cp = if isCc cp = true ∧ ¬ (k = true ∧ (cp = 9 ∨ cp = 10 ∨ cp = 13)) then [46] else [cp] := by
+  by_cases hcc : isCc cp = true
+  · have hlt : cp < 160 := by simp [isCc] at hcc; omega
+    have key : ∀ n : Fin 160, ∀ k : Bool, isCc n.val = true →
+        escCp k n.val = if isCc n.val = true ∧ ¬ (k = true ∧ (n.val = 9 ∨ n.val = 10 ∨ n.val = 13)) then [46] else [n.val] := by
+      decide +kernel
+    exact key ⟨cp, hlt⟩ k hcc
+  · have hf : isCc cp = false := by simpa using hcc
+    have := escape_keeps_other_characters k cp (fun h => by rw [(isCc_iff_mem_ccList cp).2 h] at hf; cases hf)
+    simp [this, hf]
+
+/-- whole strings: the output is the input with exactly the non-kept Cc characters replaced by "." (same length) -/
+theorem escapeControl_spec (k : Bool) (s : List Nat) :
+    escapeControl k s = s.map (fun cp => if isCc cp = true ∧ ¬ (k = true ∧ (cp = 9 ∨ cp = 10 ∨ cp = 13)) then 46 else cp) := by
+  induction s with
+  | nil => rfl
+  | cons c rest ih =>
+    simp only [escapeControl, List.flatMap_cons, List.map_cons] at ih ⊢
+    rw [escape_spec, ih]
+    split <;> rfl
+
+/-- Cf format characters (BMP list regenerated from unicodedata) are not control characters for this function: they pass
+    through unchanged.  The property statement only speaks of control characters (Cc). -/
+theorem escape_leaves_Cf_unchanged : ∀ c ∈ cfListBmp, ∀ k : Bool, escCp k c = [c] ∧ isCc c = false := by decide +kernel
+
 /-! ### the echo-path table -/
+
+/-- the `pretty` formatter: every `return` of `prettify_message` hands out a clean literal or a text that was escaped in the
+    statement before (static scan of contentviews/__init__.py; the auto-fallback branch is one of these returns) -/
+theorem prettify_returns_escaped : ∀ r ∈ prettifyReturns,
+    (r.2 = "lit" ∧ (r.1.toList.map Char.toNat).all allowed = true) ∨ r.2 = "esc" := by decide +kernel
+
+/-- the only call in dumper.py that writes text to a stream is `print(text, file=self.outfp)` inside `Dumper.echo`
+    (static scan of every print / .write / click echo / logging call), so `echoLines` covers every terminal write -/
+theorem only_echo_writes : ∀ w ∈ writeSites, w = ("echo", "print(text, file=self.outfp)") := by decide +kernel
+
 
 /-- **C49 (echo paths).** No piece of any text handed to `Dumper.echo` is a run-time value that skipped the
     escaping helpers (static scan of dumper.py, regenerated every run). -/
